@@ -38,8 +38,9 @@ def pile_table(seq, with_indels=True):
 
 
 def pile_spec(with_indels=True, indelmap=False):
+    """with_indels: True / False / "pseudo" (indels and a pseudogene: gene regions outside the RefSeq-mapped part)"""
     seq = worlds.make_refseq(0)
-    return worlds.WorldSpec(("+", "-"), False, indelmap, 0, pile_table(seq, with_indels))
+    return worlds.WorldSpec(("+", "-"), with_indels == "pseudo", indelmap, 0, pile_table(seq, bool(with_indels)))
 
 
 def window(world, build):
@@ -102,7 +103,14 @@ def menu(world, build):
     wide = g.get_wide_region()
     span = wide.end - wide.start + 60
     # one alignment that covers the whole locus and overhangs it on both sides (long read)
-    M.append(("spanning", 0, wide.start - 30, f"{span}M", ref(wide.start - 30, span)))
+    if span < 1000:
+        M.append(("spanning", 0, wide.start - 30, f"{span}M", ref(wide.start - 30, span)))
+    if world.spec.pseudo:
+        p0 = worlds.OFFS[build][1] - 1 + 140
+        M.append(("pseudo_del", 0, p0, "14M2D16M", ref(p0, 14) + ref(p0 + 16, 16)))
+        M.append(("pseudo_del2", 0, p0 + 4, "12M1D18M", ref(p0 + 4, 12) + ref(p0 + 17, 18)))
+        M.append(("pseudo_mis", 0, p0 + 2, "30M", with_sub(p0 + 2, 30, [(p0 + 14, COMP[G[p0 + 14]])])))
+        M.append(("pseudo_ins", 0, p0 + 6, "10M2I18M", ref(p0 + 6, 10) + "GG" + ref(p0 + 16, 18)))
     return M
 
 
@@ -145,7 +153,7 @@ class C06(Check):
         if st[0] == "file":
             _, wi, build, sam_text, idx = st
             M = menu(worlds.world(pile_spec(wi)), build)
-            return (f"file world={'indels' if wi else 'no-indels'} build={build} format={'sam' if sam_text else 'bam'} "
+            return (f"file world={'indels+pseudogene' if wi == 'pseudo' else 'indels' if wi else 'no-indels'} build={build} format={'sam' if sam_text else 'bam'} "
                     f"reads=[{','.join(M[i][0] for i in idx)}] idx={idx}")
         return repr(st)
 
@@ -165,6 +173,7 @@ class C06(Check):
                 if sam_text and wi:
                     continue     # indel realignment needs an indexed BAM
                 yield ("file", wi, "hg19" if wi else "hg38", sam_text, ())
+        yield ("file", "pseudo", "hg38", False, ())
 
     def successors(self, st):
         if st[0] == "cigar":
@@ -364,6 +373,8 @@ class C06(Check):
         for (pos, op), n in exp.items():
             if gene.region_at(pos) is None:
                 continue
+            if not bounds[0] <= pos <= bounds[1]:
+                op = "*"          # outside the RefSeq-mapped part only the depth is defined
             exp2[pos, op] += n
         got = collections.Counter()
         for pos, d_ in sm.coverage._coverage.items():
@@ -372,6 +383,8 @@ class C06(Check):
             for op, lst in d_.items():
                 if op.startswith("ins"):
                     continue
+                if not bounds[0] <= pos <= bounds[1]:
+                    op = "*"
                 got[pos, op] += len(lst)
         if got != exp2:
             dg = collections.Counter()
